@@ -71,6 +71,17 @@ func runC07(c *Ctx) {
 		}
 		calls := CallsIn(fn, s.callee)
 		if len(calls) == 0 {
+			// the step may have been extracted into a helper of the package: it is then judged there (the
+			// helper must store the recheck time before it returns "not done")
+			for _, g := range samePkgClosure(p, fn) {
+				if g != fn && len(CallsIn(g, s.callee)) > 0 && p.Func(FuncName(g)) != nil && !strings.HasSuffix(FuncName(g), ".runCanary") {
+					fn = g
+					calls = CallsIn(g, s.callee)
+					break
+				}
+			}
+		}
+		if len(calls) == 0 {
 			c.Ob("R7.1", shortName(s.fn)+"#"+lastName(s.callee), fn.Pos(), false, "call of "+s.callee, "anchor not found")
 			continue
 		}
